@@ -12,8 +12,46 @@ import GraphiqModel.Proofs.SolverCompleteInvLoc
 namespace Graphiq.Solver
 open Graphiq Graphiq.Cliff PRow STab Tab
 
-/-- the completeness of `inverse_circuit` (C11, other branch), as a hypothesis -/
-def InvComplete : Prop := ∀ t : STab, t.Good → ∃ t' c, t.inverseCircuit = .ok (t', c) ∧ t'.isZero = true
+/-- independence of the generators over GF(2), stated on the bits (Mathlib-free; this is, verbatim, the notion `STab.Indep` of the
+    C11 development on branch deep-c11): no non-empty selection of generators multiplies to the identity Pauli string -/
+def BitIndep (t : STab) : Prop :=
+  ∀ S : Nat → Bool, (∀ j, j < t.n → parityTo t.n (fun i => S i && (t.row i).x j) = false ∧
+      parityTo t.n (fun i => S i && (t.row i).z j) = false) → ∀ i, i < t.n → S i = false
+
+/-- linear independence of the symplectic vectors implies independence on the bits -/
+theorem linIndep_bits (t : STab) (h : t.LinIndep) : BitIndep t := by
+  intro S hS i hi
+  have h' := Fintype.linearIndependent_iff.1 h (fun k : Fin t.n => b2z (S k.val))
+  have hsel : ∀ k, k < t.n → selOf (fun k : Fin t.n => b2z (S k.val)) k = S k := by
+    intro k hk
+    unfold selOf
+    rw [dif_pos hk]
+    show decide (b2z (S k) = 1) = S k
+    cases S k
+    · show decide ((0 : ZMod 2) = 1) = false
+      decide
+    · show decide ((1 : ZMod 2) = 1) = true
+      decide
+  have hsum : ∑ k : Fin t.n, (fun k : Fin t.n => b2z (S k.val)) k • (t.row k).vec t.n = 0 := by
+    funext j
+    rw [lincomb_apply' t _ j]
+    have e1 : t.comboX (selOf (fun k : Fin t.n => b2z (S k.val))) j = false := by
+      unfold STab.comboX
+      rw [parityTo_congr t.n _ (fun i => S i && (t.row i).x j) (fun k hk => by rw [hsel k hk])]
+      exact (hS j.val j.isLt).1
+    have e2 : t.comboZ (selOf (fun k : Fin t.n => b2z (S k.val))) j = false := by
+      unfold STab.comboZ
+      rw [parityTo_congr t.n _ (fun i => S i && (t.row i).z j) (fun k hk => by rw [hsel k hk])]
+      exact (hS j.val j.isLt).2
+    rw [e1, e2]; rfl
+  have := h' hsum ⟨i, hi⟩
+  exact (b2z_eq_zero _).1 this
+
+/-- the completeness of `inverse_circuit` (C11, other branch: `STab.inverseCircuit_complete`), as a hypothesis: on every valid
+    stabilizer tableau (real, commuting, INDEPENDENT generators — for dependent generators `canonical_form` hits its final assertion)
+    it returns and reaches |0…0⟩ -/
+def InvComplete : Prop :=
+  ∀ t : STab, t.Good → BitIndep t → ∃ t' c, t.inverseCircuit = .ok (t', c) ∧ t'.isZero = true
 
 /-! ### the last `rref`: the photon generators sit on the diagonal -/
 
@@ -230,7 +268,7 @@ theorem foldlM_noop {α : Type} (l : List α) (f : St → α → Except Err St) 
 /-- **completeness of the time-reversed solver model, any stabilizer target** (real, commuting, independent generators on at least one
     qubit, none of whose qubits is a product qubit), under the completeness of `inverse_circuit`: `solve` returns, and its final
     working tableau generates exactly the signed group of |0…0⟩ -/
-theorem solve_complete_stabilizer (hinv : InvComplete) (target : STab) (hg : target.Good) (hi : target.Indep) (hn : 0 < target.n)
+theorem solve_complete_stabilizer (hinv : InvComplete) (target : STab) (hg : target.Good) (hi : target.LinIndep) (hn : 0 < target.n)
     (hnp : ∀ p, p < target.n → target.NotProd p) :
     ∃ s, solve target = .ok s ∧ SpanEq s.t (STab.zero (target.n + s.ne)) := by
   obtain ⟨ne, hdet⟩ := determineNEmitters_ok target hi hn
@@ -241,7 +279,7 @@ theorem solve_complete_stabilizer (hinv : InvComplete) (target : STab) (hg : tar
   have hn2 : t2.n = target.n + ne := i2.n_eq
   have hlit2 : ∀ q, q < target.n → t2.Lit q := fun q hq => i2.lit q (Nat.zero_le _) hq
   have hrows := echelon_lit_rows t2 piv2 he2 target.n (by omega) hlit2
-  obtain ⟨t', inv, hic, hz⟩ := hinv t2 i2.good
+  obtain ⟨t', inv, hic, hz⟩ := hinv t2 i2.good (linIndep_bits t2 i2.indep)
   obtain ⟨hn', hg', hwf, hfwd, hbwd⟩ := inverseCircuit_tracks t2 t' inv i2.good hic
   have hok := inverseCircuit_gates_ok t2 t' inv target.n (by omega) i2.good canonicalForm_lit hlit2 hic
   obtain ⟨s3, h3, hnp3, hne3, tr3⟩ := addGatesFromStr_ok target.n t2 inv (fun g hgm => ⟨hok g hgm, hwf g hgm⟩)
